@@ -38,7 +38,7 @@ CHECKS = {
    "Attribute kinds bool/float/duration/time are checked by key presence only (their rendering is C04/C05); duplicate keys are not generated (C07).",
    "deterministic simulation: derivation histories, I/O counts at simulated destinations, process death as observation", "DESIGN.md §5 C15"),
  "C16": ("HIST", "exploration",
-   "The simulated clock (years 0001-9999, zones, jumps, granularity) is the only clock logg reads; configurations (flags, UTC mode, layouts, formats) are sampled; the printed time text must equal the record's instant - the single clock read of the call, or the explicit instant of WriteThru - moved to the zone the statement gives and formatted with the logger layout or the exported layout constant matching the flags.",
+   "The simulated clock (years 0001-9999, zones, jumps, granularity) is the only clock logg reads; configurations (flags, UTC mode, layouts, formats) are sampled; the printed time text must equal the record's instant - the single clock read of the call, or the explicit instant of WriteThru - moved to the zone the statement gives and formatted with the logger layout or the exported layout constant matching the flags. A third of the episodes also hand explicit slog.Records (incl. the zero time, the epoch and the last instant of year 9999) to the log/slog adapter; bursts of records share one Unix second in different zones.",
    "For the three flag sets without a matching exported layout any exported layout is accepted. time.Time.Format is the reference for 'formatted with layout'.",
    "deterministic simulation: simulated clock with jumps/zones, configuration sampling", "DESIGN.md §5 C16"),
  "C17": ("PROC", "exploration",
@@ -62,11 +62,11 @@ CHECKS.update({
    "Preemption points are callback boundaries (all episodes) and function entries of package slog (fine-world episodes); a switch between two statements without a call in between is reachable only for the race detector. The race detector keeps a bounded access history (race episodes are short). In the race world the real sync.Pool runs, so pooled-object choice is not on the tape there (replay retries up to 8 times).",
    "deterministic simulation: seeded scheduler over real goroutines, schedule tape, destination stalls, happens-before race detection made schedule-deterministic", "DESIGN.md §5 C08, §2.4"),
  "C09": ("CONC", "exploration",
-   "The same probe call (fixed timestamp through WriteThru, fixed call site) is issued in the pristine world process and again after seeded histories of 0-200 other calls on 1-4 tasks; the pool tape decides whether the probe is formatted in a fresh, the most recently recycled or an older context; payloads must be byte-identical.",
+   "The same probe call (fixed timestamp through WriteThru, fixed call site) is issued in the pristine world process and again after seeded histories of 0-200 other calls on 1-4 tasks; the pool tape decides whether the probe is formatted in a fresh, the most recently recycled or an older context; payloads must be byte-identical. Histories include records from the probe's own call site, arbitrary attribute lists (every value kind, reserved key names, stack-carrying errors) and multi-line messages.",
    "No configuration change between the two probes (generator invariant, enforced for minimised scenarios).",
    "deterministic simulation: histories x schedules x pool-recycling tape, byte equality", "DESIGN.md §5 C09"),
  "C12": ("PROC", "fault_enumeration",
-   "Complete enumeration of the termination matrix (entry point x flags x process mode x admitted x format = 672 cells), each in its own world process whose death is the crash point: the record must be complete in a real file read after the process is gone, a Panic must be recoverable with the message as value, a Fatal must exit with status 253 with nothing after the record, every other cell and every other severity must run on to the end marker.",
+   "Complete enumeration of the termination matrix (entry point x flags x process mode x admitted x format = 672 cells), each in its own world process whose death is the crash point: the record must be complete in a real file read after the process is gone, a Panic must be recoverable with the message as value, a Fatal must exit with status 253 with nothing after the record, every other cell and every other severity must run on to the end marker. A third of the seed variants put a permanently failing member in front of the durable one in the error device (crash point x fault), and some cell calls carry 60-2500 attributes.",
    "Process mode is spoofed through argv0/-test.* exactly as hedzr/is reads it. Messages, attributes and surrounding calls are sampled per seed.",
    "deterministic simulation: one OS process per cell, process death as crash point, durable destination read after death", "DESIGN.md §5 C12"),
  "C13": ("CONC", "fault_enumeration",
